@@ -46,7 +46,9 @@ def rooted_at(n, root, depth=0):
 
 
 def pairing(model, res):
-    """Kenamond2: every straight-ray term t_d[i] + |x - dets[j]|/D pairs i == j."""
+    """Kenamond2: every straight-ray arrival time is  t_d[i] + |x - dets[i]| / D (+ transit offsets):
+    the flat sum that contains a distance to detonator j must contain the detonation time t_d[j]
+    (and no other detonation time)."""
     cls = model.get_class(CLASSES[1])
     b = Builder(model)
     objn, ret = b.run_solver(cls)
@@ -56,34 +58,68 @@ def pairing(model, res):
     if dets is None or td is None:
         raise AnalysisError('Kenamond2: attributes dets / t_d vanished')
     runm = cls.find_method('_run')
-    pairs = []
-    for n in b.trace:
-        if n.kind == 'binop' and n.val == '+' and n.origin and n.origin[0] is runm:
-            a, c = n.args
-            if a.kind == 'sub' and a.args[1].kind == 'const' and isinstance(a.args[1].val, int) \
-                    and any(a.args[0] is l for l in phi_leaves(td)):
-                js = set()
-                for m in walk(c):
-                    if m.kind == 'sub' and m.args[1].kind == 'const' and isinstance(m.args[1].val, int) \
-                            and (m.args[0] is dets or rooted_at(m.args[0], dets) or any(m.args[0] is l for l in phi_leaves(dets))):
-                        js.add(m.args[1].val)
-                if js:
-                    pairs.append((a.args[1].val, js, n))
-    if len(pairs) < 5:
-        raise AnalysisError('Kenamond2: only %d detonator/time terms recognised (confirmed: 5)' % len(pairs))
-    for i, js, n in pairs:
+    td_leaves = phi_leaves(td)
+    det_leaves = phi_leaves(dets)
+
+    def det_index(n):
+        """indices j of dets[j] the value is computed from"""
+        js = set()
+        for m in walk(n):
+            if m.kind == 'sub' and m.args[1].kind == 'const' and isinstance(m.args[1].val, int) \
+                    and (m.args[0] is dets or rooted_at(m.args[0], dets) or any(m.args[0] is l for l in det_leaves)):
+                js.add(m.args[1].val)
+        return js
+
+    def td_index(n):
+        if n.kind == 'sub' and n.args[1].kind == 'const' and isinstance(n.args[1].val, int) \
+                and any(n.args[0] is l for l in td_leaves):
+            return n.args[1].val
+        return None
+
+    def addends(x, out):
+        if x.kind == 'binop' and x.val == '+':
+            addends(x.args[0], out)
+            addends(x.args[1], out)
+        else:
+            out.append(x)
+        return out
+    # maximal '+' chains of _run: a '+' node that is not itself an operand of another '+'
+    inner = set()
+    plus = [n for n in b.trace if n.kind == 'binop' and n.val == '+' and n.origin and n.origin[0] is runm]
+    for n in plus:
+        for a in n.args:
+            if a.kind == 'binop' and a.val == '+':
+                inner.add(a.nid)
+    terms = 0
+    for n in plus:
+        if n.nid in inner:
+            continue
+        parts = addends(n, [])
+        js = set()
+        for p in parts:
+            if td_index(p) is None:
+                js |= det_index(p)
+        if not js:
+            continue
+        tis = {td_index(p) for p in parts if td_index(p) is not None}
+        terms += 1
         res.obligations += 1
         res.evaluations += 1
         res.nontrivial += 1
-        if js == {i}:
+        if tis == js and len(js) == 1:
             res.discharged += 1
-            res.sample({'rule': 'C13.det-pairing', 'term': n.src[:80], 'time_index': i, 'detonator_index': sorted(js)})
+            res.sample({'rule': 'C13.det-pairing', 'term': n.src[:80], 'detonator': sorted(js), 'time_index': sorted(tis)})
         else:
+            what = ('is not started from any detonation time' if not tis else
+                    'is started from the detonation time(s) t_d%s' % sorted(tis))
             res.add(Finding(PROP, 'C13.det-pairing', runm.module.relpath, runm.qualname,
-                            'Kenamond2: t_d[%d] paired with dets%s' % (i, sorted(js)),
-                            "Kenamond2: the arrival time of detonator %s is started from the detonation time t_d[%d]: the burn "
-                            "time at a detonator differs from its own detonation time" % (sorted(js), i),
+                            'Kenamond2: arrival from detonator %s %s' % (sorted(js), what.split(' t_d')[0] + (' t_d%s' % sorted(tis) if tis else '')),
+                            "Kenamond2: the arrival time built from the distance to detonator %s %s: the wave of a detonator "
+                            "must start at that detonator's own detonation time t_d%s, otherwise the burn time is not a "
+                            "causal first-arrival time" % (sorted(js), what, sorted(js)),
                             line=getattr(n.origin[1], 'lineno', 0), construct=n.src))
+    if terms < 6:
+        raise AnalysisError('Kenamond2: only %d straight-ray arrival terms recognised (confirmed: 6)' % terms)
 
 
 def interface_continuity(model, res):
